@@ -1,5 +1,5 @@
 (** C17 — generic token parsing is total and free of type confusion. *)
-From SplVerif Require Import Lib.Base Token.Model Token.Proofs.
+From SplVerif Require Import Lib.Base Token.Model Token.Proofs Token.Sets.
 Local Open Scope N_scope.
 
 (** functional characterisation for every byte string and program id: never a panic,
@@ -29,3 +29,22 @@ Example C17_nonvacuous :
   generic_account PToken2022 acct = Ok None /\ is_ok (generic_account PToken2022 (acct ++ [x00])) = true /\
   generic_mint PToken2022 (acct ++ [x00]) = Ok None.
 Proof. cbv zeta. repeat split; vm_compute; reflexivity. Qed.
+
+(** the exact acceptance sets by length class *)
+Theorem C17_token_iff : forall b,
+  (acct_ok PToken b = true <-> len b = 165 /\ is_initialized_at b 108 = true) /\
+  (mint_ok PToken b = true <-> len b = 82 /\ is_initialized_at b 45 = true).
+Proof. exact token_iff. Qed.
+Theorem C17_token2022_at_most_base_length : forall b, len b <= 165 ->
+  acct_ok PToken2022 b = acct_ok PToken b /\ mint_ok PToken2022 b = mint_ok PToken b.
+Proof. exact token2022_short. Qed.
+Theorem C17_token_subset_of_token2022 : forall b,
+  (forall r, generic_account PToken b = Ok (Some r) -> generic_account PToken2022 b = Ok (Some r)) /\
+  (forall r, generic_mint PToken b = Ok (Some r) -> generic_mint PToken2022 b = Ok (Some r)).
+Proof. exact token_subset. Qed.
+Theorem C17_multisig_length_never_parses : forall p b, len b = 355 ->
+  generic_account p b = Ok None /\ generic_mint p b = Ok None.
+Proof. exact multisig_length_never_parses. Qed.
+Theorem C17_other_short_lengths_never_parse : forall p b, len b <> 82 -> len b <> 165 -> len b <= 165 ->
+  generic_account p b = Ok None /\ generic_mint p b = Ok None.
+Proof. exact odd_lengths_never_parse. Qed.
